@@ -66,6 +66,7 @@ var (
 		{"ns1", "b", [6]string{"", "", "S:Kubernetes:ns1:b:cacert", "", "", ""}},
 		{"istio-system", "a", [6]string{"S:Kubernetes:istio-system:a:cert", "S:Kubernetes:istio-system:a:key", "", "", "", ""}},
 		{"ns1", "c", [6]string{"S:Kubernetes:ns1:c:cert", "S:Kubernetes:ns1:c:key", "", "", "", ""}},
+		{"ns1", "d", [6]string{"", "", "", "S:Kubernetes:ns1:d:tls.crt", "S:Kubernetes:ns1:d:tls.key", ""}},
 	}
 	// ClusterAliases of the discovery server: the client-claimed CLUSTER_ID is rewritten before anything else
 	streamAliases = [][2]string{{"alias-k", "Kubernetes"}, {"alias-x", "nowhere"}}
@@ -86,7 +87,7 @@ var (
 		{"ns1", "", nil, []worldServer{{"kubernetes-gateway://ns1/a", "SIMPLE"}, {"kubernetes-gateway://ns2/a", "MUTUAL"}, {"kubernetes-gateway://istio-system/a", "SIMPLE"}}},
 		{"ns2", "sa1", nil, []worldServer{{"kubernetes-gateway://ns2/a", "SIMPLE"}}},
 		{"ns1", "", [][2]string{{"app", "edge"}}, []worldServer{{"kubernetes-gateway://ns1/c", "SIMPLE"}}},
-		{"ns1", "", [][2]string{{"app", "edge"}, {"tier", "x"}}, []worldServer{{"kubernetes-gateway://ns1/b", "SIMPLE"}}},
+		{"ns1", "", [][2]string{{"app", "edge"}, {"tier", "x"}}, []worldServer{{"kubernetes-gateway://ns1/d", "SIMPLE"}}},
 	}
 	streamGrants = []rgSpec{{srcNs: "ns2", from: "G", fromNs: "ns1", to: "S", name: "*"}, {srcNs: "istio-system", from: "H", fromNs: "ns1", to: "S", name: "*"}}
 )
@@ -623,7 +624,7 @@ func genStream(seed uint64, n int, outp string) {
 	nameU := []string{"kubernetes://a", "kubernetes://ns1/a", "kubernetes://ns2/a", "kubernetes://istio-system/a", "kubernetes://b-cacert",
 		"kubernetes://a-cacert", "kubernetes://ns1/b-cacert", "kubernetes-gateway://ns1/a", "invalid://x", "bogus", "kubernetes://ns2/a-cacert",
 		"kubernetes-gateway://ns1/a", "kubernetes-gateway://ns2/a", "kubernetes-gateway://ns2/a-cacert", "kubernetes-gateway://istio-system/a",
-		"kubernetes-gateway://ns2/a", "kubernetes-gateway://ns1/a/x", "kubernetes-gateway://ns1/c", "kubernetes-gateway://ns1/c", "kubernetes-gateway://ns1/b",
+		"kubernetes-gateway://ns2/a", "kubernetes-gateway://ns1/a/x", "kubernetes-gateway://ns1/c", "kubernetes-gateway://ns1/c", "kubernetes-gateway://ns1/d", "kubernetes-gateway://ns1/d", "kubernetes-gateway://ns1/b",
 		"kubernetes://c"}
 	for c := 0; c < n; c++ {
 		r := root.Fork()
